@@ -78,7 +78,8 @@ func c07[S, D constraints.Integer](conv func(*signal.Buffer[S], *signal.Buffer[D
 		return
 	}
 	x := vf.Any[S]("x")
-	r, _ := conv2(conv, x, x)
+	r0, r := conv2(conv, x, x)
+	vf.Assert("both-positions-agree", r0 == r)
 	d := ws - wd
 	if d == 0 {
 		vf.Cover("same-depth")
@@ -99,9 +100,9 @@ func c07rt[S, D constraints.Integer](widen func(*signal.Buffer[S], *signal.Buffe
 	}
 	vf.Cover("round-trip")
 	x := vf.Any[S]("x")
-	w, _ := conv2(widen, x, x)
-	back, _ := conv2(narrow, w, w)
-	vf.Assert("widen-then-narrow-is-identity", back == x)
+	w0, w := conv2(widen, x, x)
+	b0, back := conv2(narrow, w0, w)
+	vf.Assert("widen-then-narrow-is-identity", back == x && b0 == x)
 }
 
 func C06_SignedAsSigned[S, D constraints.Signed]() { c06[S, D](signal.SignedAsSigned[S, D]) }
